@@ -42,6 +42,12 @@ class ExprMixin:
         v = self.module_name(name, fr.module)
         if v is not None:
             return v
+        if name in getattr(self, 'enclosing_bound', ()) and fr is self.st.frames[0]:
+            # a free variable of the nested function under contract that the contract's `closure` does not declare: a value the
+            # enclosing function computed when the closure was made - unknown here, and NOT tied to the current state
+            if ('freevar', name) not in self.st.ghost:
+                self.st.ghost[('freevar', name)] = SV('opq', self.sym('captured_' + name, OPQ), 'unknown')
+            return self.st.ghost[('freevar', name)]
         raise Unsupported(f'name {name}')
 
     def module_name(self, name, module):
@@ -215,7 +221,8 @@ class ExprMixin:
 
     def opq_binop(self, op, a, b):
         f = self.ufunc('f' + op, OPQ, OPQ, OPQ)
-        return SV('opq', f(self.as_opq(a), self.as_opq(b)))
+        unknown = (a.k == 'opq' and a.x == 'unknown') or (b.k == 'opq' and b.x == 'unknown')
+        return SV('opq', f(self.as_opq(a), self.as_opq(b)), 'unknown' if unknown else None)
 
     def as_opq(self, v):
         if v.k == 'opq':
@@ -239,6 +246,8 @@ class ExprMixin:
             return self.ufunc('of_str', SEQ, OPQ)(seq_of_str(v.t))
         if v.k == 'str':
             return self.ufunc('of_str', SEQ, OPQ)(v.t)
+        if v.k == 'bytes' or (v.k == 'const' and isinstance(v.t, (bytes, bytearray))):
+            return self.ufunc('of_bytes', SEQ, OPQ)(self.as_seq(v))
         raise Unsupported(f'as_opq {v}')
 
     def ev_UnaryOp(self, e):
@@ -439,7 +448,7 @@ class ExprMixin:
             try:
                 return self.as_opq(a) == self.as_opq(b)
             except Unsupported:
-                return z3.BoolVal(False) if (a.k in ('list',) or b.k in ('list',)) else self._unsup_eq(a, b)
+                return z3.BoolVal(False) if (a.k in ('list', 'seq') or b.k in ('list', 'seq')) else self._unsup_eq(a, b)
         if a.k == 'ref' and b.k == 'ref':
             return a.t == b.t
         kinds = {a.k, b.k}
@@ -849,6 +858,11 @@ class ExprMixin:
 
     def iter_concrete(self, v):
         """iterate a value whose length is a program constant on this path"""
+        if v.k == 'opq' and v.x == 'unknown':
+            # state the model does not mention: two representative shapes - nothing to iterate, or one (unknown) element
+            if self.st.oracle.choose(2) == 0:
+                return []
+            return [SV('opq', self.sym('unknown_element', OPQ), 'unknown')]
         if v.k == 'obj' and '__store__' in self.st.heap[v.t].f:
             v = self.st.heap[v.t].f['__store__']
         if v.k == 'tuple':
